@@ -3,6 +3,6 @@ CONSTANTS Kind = "bounds"
  NMax = 0
  DMax = 0
  LMax = 0
- ScaleSet = {0, 1, 18}
+ ScaleSet = {0, 18}
 INVARIANT Emit
 CHECK_DEADLOCK FALSE
